@@ -738,7 +738,10 @@ pub fn parse_strict(bytes: &[u8]) -> Option<Msg> {
         if c.peek() == Some(b'*') {
             c.i += 1;
             let m = strict_mnemonic(&mut c)?;
-            if m.len() > 11 {
+            // letters only: whether the "absent suffix = 1" rule of SCPI headers also applies to
+            // IEEE 488.2 common commands (`*IDN1?`) is not fixed by the statements, so such
+            // headers are outside the strict language
+            if m.len() > 11 || !m.bytes().all(|b| b.is_ascii_alphabetic()) {
                 return None;
             }
             u.path = vec![format!("*{}", m)];
